@@ -23,9 +23,9 @@ func (c *simCtx) Deadline() (time.Time, bool) {
 	}
 	return c.parent.Deadline()
 }
-func (c *simCtx) Done() <-chan struct{}             { return c.done }
-func (c *simCtx) Err() error                        { return c.err }
-func (c *simCtx) Value(k interface{}) interface{}   { return c.parent.Value(k) }
+func (c *simCtx) Done() <-chan struct{}           { return c.done }
+func (c *simCtx) Err() error                      { return c.err }
+func (c *simCtx) Value(k interface{}) interface{} { return c.parent.Value(k) }
 
 func (c *simCtx) cancel(err error) {
 	if c.err != nil {
